@@ -238,3 +238,373 @@ Proof.
 Qed.
 
 End Seg.
+
+(* ---------- the frame ---------- *)
+
+Record frame_st (stack : list key) (s s' : state) (ok : bool) (l : list event) : Prop := mkFrame {
+  fr_log : st_log s' = l ++ st_log s;
+  fr_epoch : st_epoch s' = st_epoch s;
+  fr_dbepoch : st_db_epoch s' = st_db_epoch s;
+  fr_frozen : forall x, done s x -> get (st_mem s') x = get (st_mem s) x;
+  fr_stack : forall x, In x stack -> get (st_mem s') x = get (st_mem s) x;
+  fr_flag : forall x, flagged s' x = true -> flagged s x = true;
+  fr_flag_keep : forall x, ~ In x (creates l) -> flagged s' x = flagged s x;
+  fr_db_keep : forall x, ~ In x (creates l) -> get (st_db s') x = get (st_db s) x;
+  fr_nodup : NoDup (creates l);
+  fr_fresh : forall x, In x (creates l) -> ~ done s x /\ ~ In x stack;
+  fr_done : ok = true -> forall x, In x (creates l) -> done s' x;
+  fr_touch : ok = true -> forall x, get (st_mem s') x = get (st_mem s) x \/ (~ done s x /\ done s' x)
+}.
+
+Definition frame_o (stack : list key) (s : state) (o : outcome) : Prop :=
+  match o with
+  | Ok s' => frame_st stack s s' true (new_log s s')
+  | Cycle s' _ => frame_st stack s s' false (new_log s s')
+  | OutOfFuel => True
+  end.
+
+Definition frame (stack : list key) (s : state) (k : key) (o : outcome) : Prop :=
+  frame_o stack s o /\ (forall s', o = Ok s' -> done s' k).
+
+Lemma frame_new_log : forall st s s' ok l, frame_st st s s' ok l -> frame_st st s s' ok (new_log s s').
+Proof. intros st s s' ok l H. rewrite (new_log_intro _ _ _ (fr_log _ _ _ _ _ H)). exact H. Qed.
+
+Lemma frame_done_mono : forall st s s' ok l x, frame_st st s s' ok l -> done s x -> done s' x.
+Proof.
+  intros st s s' ok l x H Hd. unfold done. rewrite (fr_frozen _ _ _ _ _ H x Hd), (fr_epoch _ _ _ _ _ H). exact Hd.
+Qed.
+
+Lemma frame_refl : forall st s ok, frame_st st s s ok [].
+Proof.
+  intros. constructor; cbn [creates app In]; try reflexivity; try tauto; try (now constructor); try (intros _ x; now left).
+Qed.
+
+Lemma frame_emit : forall st s e ok, creates [e] = [] -> frame_st st s (emit s e) ok [e].
+Proof.
+  intros st s e ok He. constructor; rewrite ?He; cbn [In]; try reflexivity; try tauto; try (now constructor); try (intros _ x; now left).
+Qed.
+
+Lemma frame_weaken_ok : forall st s s' ok l, frame_st st s s' ok l -> frame_st st s s' false l.
+Proof.
+  intros st s s' ok l H. destruct H. constructor; try assumption; intros; discriminate.
+Qed.
+
+Lemma frame_weaken_stack : forall k st s s' ok l, frame_st (k :: st) s s' ok l -> frame_st st s s' ok l.
+Proof.
+  intros k st s s' ok l H. destruct H. constructor; try assumption.
+  - intros x Hx. apply fr_stack0. now right.
+  - intros x Hx. destruct (fr_fresh0 x Hx) as [A B]. split; [exact A|]. intros C. apply B. now right.
+Qed.
+
+Lemma NoDup_app_intro : forall (l1 l2 : list key), NoDup l1 -> NoDup l2 -> (forall x, In x l1 -> ~ In x l2) -> NoDup (l1 ++ l2).
+Proof.
+  induction l1 as [|a t IH]; intros l2 H1 H2 Hd; [exact H2|].
+  cbn [app]. inversion H1 as [|? ? Ha Ht]. subst. constructor.
+  - rewrite in_app_iff. intros [A|A]; [now apply Ha | apply (Hd a); [now left | exact A]].
+  - apply IH; [exact Ht | exact H2 | intros x Hx; apply Hd; now right].
+Qed.
+
+Lemma frame_trans : forall st s s1 s2 ok l1 l2,
+  frame_st st s s1 true l1 -> frame_st st s1 s2 ok l2 -> frame_st st s s2 ok (l2 ++ l1).
+Proof.
+  intros st s s1 s2 ok l1 l2 A B.
+  assert (Hmono : forall x, done s x -> done s1 x) by (intros x; eapply frame_done_mono; exact A).
+  constructor.
+  - rewrite (fr_log _ _ _ _ _ B), (fr_log _ _ _ _ _ A). now rewrite app_assoc.
+  - rewrite (fr_epoch _ _ _ _ _ B). apply (fr_epoch _ _ _ _ _ A).
+  - rewrite (fr_dbepoch _ _ _ _ _ B). apply (fr_dbepoch _ _ _ _ _ A).
+  - intros x Hx. rewrite (fr_frozen _ _ _ _ _ B x (Hmono x Hx)). apply (fr_frozen _ _ _ _ _ A x Hx).
+  - intros x Hx. rewrite (fr_stack _ _ _ _ _ B x Hx). apply (fr_stack _ _ _ _ _ A x Hx).
+  - intros x Hx. apply (fr_flag _ _ _ _ _ A). apply (fr_flag _ _ _ _ _ B). exact Hx.
+  - intros x Hx. rewrite creates_app, in_app_iff in Hx.
+    rewrite (fr_flag_keep _ _ _ _ _ B x) by tauto. apply (fr_flag_keep _ _ _ _ _ A x). tauto.
+  - intros x Hx. rewrite creates_app, in_app_iff in Hx.
+    rewrite (fr_db_keep _ _ _ _ _ B x) by tauto. apply (fr_db_keep _ _ _ _ _ A x). tauto.
+  - rewrite creates_app. apply NoDup_app_intro.
+    + apply (fr_nodup _ _ _ _ _ B).
+    + apply (fr_nodup _ _ _ _ _ A).
+    + intros x H2 H1. destruct (fr_fresh _ _ _ _ _ B x H2) as [P _]. apply P. apply (fr_done _ _ _ _ _ A eq_refl x H1).
+  - intros x Hx. rewrite creates_app, in_app_iff in Hx. destruct Hx as [Hx|Hx].
+    + destruct (fr_fresh _ _ _ _ _ B x Hx) as [P Q]. split; [|exact Q]. intros C. apply P. now apply Hmono.
+    + apply (fr_fresh _ _ _ _ _ A x Hx).
+  - intros Hok x Hx. rewrite creates_app, in_app_iff in Hx. destruct Hx as [Hx|Hx].
+    + apply (fr_done _ _ _ _ _ B Hok x Hx).
+    + eapply frame_done_mono; [exact B|]. apply (fr_done _ _ _ _ _ A eq_refl x Hx).
+  - intros Hok x. destruct (fr_touch _ _ _ _ _ A eq_refl x) as [E1|[N1 D1]].
+    + destruct (fr_touch _ _ _ _ _ B Hok x) as [E2|[N2 D2]].
+      * left. now rewrite E2.
+      * right. split; [|exact D2]. intros C. apply N2. now apply Hmono.
+    + right. split; [exact N1|]. eapply frame_done_mono; [exact B | exact D1].
+Qed.
+
+Lemma frame_o_trans : forall st s s1 l1 o, frame_st st s s1 true l1 -> frame_o st s1 o -> frame_o st s o.
+Proof.
+  intros st s s1 l1 o A B. destruct o as [s2|s2 p|]; cbn [frame_o] in *; [| |exact I];
+    eapply frame_new_log; eapply frame_trans; [exact A | exact B | exact A | exact B].
+Qed.
+
+Lemma frame_o_weaken_stack : forall k st s o, frame_o (k :: st) s o -> frame_o st s o.
+Proof. intros k st s [s'|s' p|] H; cbn [frame_o] in *; [| |exact I]; eapply frame_weaken_stack; exact H. Qed.
+
+(* a cleaning write to an incomplete key that is off the stack, before a frame that completes it *)
+Lemma frame_set_mem_pre : forall st s k r s' ok l,
+  res_builtAt r = res_builtAt (get (st_mem s) k) -> ~ done s k -> ~ In k st ->
+  frame_st st (set_mem s k r) s' ok l -> (ok = true -> done s' k) -> frame_st st s s' ok l.
+Proof.
+  intros st s k r s' ok l Hb Hnd Hns A Hk.
+  assert (Hget : forall x, x <> k -> get (st_mem (set_mem s k r)) x = get (st_mem s) x)
+    by (intros x Hx; cbn [set_mem st_mem]; now apply get_update_other).
+  assert (Hd : forall x, done (set_mem s k r) x <-> done s x).
+  { intros x. unfold done. cbn [set_mem st_mem st_epoch]. destruct (N.eq_dec x k) as [->|Hx].
+    - rewrite get_update_same, Hb. tauto.
+    - rewrite get_update_other by exact Hx. tauto. }
+  destruct A. constructor; try assumption.
+  - intros x Hx. assert (x <> k) by (intros ->; tauto). rewrite fr_frozen0 by now apply Hd. now apply Hget.
+  - intros x Hx. assert (x <> k) by (intros ->; tauto). rewrite fr_stack0 by exact Hx. now apply Hget.
+  - intros x Hx. destruct (fr_fresh0 x Hx) as [P Q]. split; [|exact Q]. intros C. apply P. now apply Hd.
+  - intros Hok x. destruct (N.eq_dec x k) as [->|Hx].
+    + right. split; [exact Hnd | now apply Hk].
+    + destruct (fr_touch0 Hok x) as [E|[P Q]].
+      * left. rewrite E. now apply Hget.
+      * right. split; [|exact Q]. intros C. apply P. now apply Hd.
+Qed.
+
+Section Frame.
+Variable rules : key -> rule.
+Variable env : key -> N.
+Variable F : key -> N -> list value -> list N -> N -> N.
+Variable order : N -> key -> list dep -> list dep.
+Variable ens : list key -> state -> key -> outcome.
+Hypothesis Hens : forall stack s k, frame stack s k (ens stack s k).
+
+Lemma seg_frame : forall st ks s o, seg ens st ks s o ->
+  frame_o st s o /\ (forall s', o = Ok s' -> forall x, In x ks -> done s' x).
+Proof.
+  intros st ks s o H. induction H as [s|ks s e o Hp H IH|ks s x s1 o Hc H IH|ks s x o Hc Hn].
+  - split; [|intros ? ? ? []]. cbn [frame_o]. eapply frame_new_log. apply frame_refl.
+  - destruct IH as [IH1 IH2]. split; [|exact IH2].
+    eapply frame_o_trans; [|exact IH1]. apply frame_emit. destruct e; try reflexivity; destruct Hp.
+  - destruct IH as [IH1 IH2]. destruct (Hens st s x) as [A B]. rewrite Hc in A, B. cbn [frame_o] in A.
+    split; [eapply frame_o_trans; [exact A | exact IH1]|].
+    intros s' -> y [<-|Hy]; [|now apply (IH2 s')].
+    cbn [frame_o] in IH1. eapply frame_done_mono; [exact IH1|]. now apply B.
+  - destruct (Hens st s x) as [A B]. rewrite Hc in A. split; [exact A|].
+    intros s' ->. exfalso. now apply (Hn s').
+Qed.
+
+Lemma complete_mem_other : forall s k rl r bk v x, x <> k ->
+  get (st_mem (complete order s k rl r bk v)) x = get (st_mem s) x.
+Proof. intros. unfold complete. cbn [set_db set_mem st_mem unflag emit]. now apply get_update_other. Qed.
+
+Lemma complete_mem_same : forall s k rl r bk v,
+  res_builtAt (get (st_mem (complete order s k rl r bk v)) k) = st_epoch s.
+Proof. intros. unfold complete. cbn [set_db set_mem st_mem unflag emit]. now rewrite get_update_same. Qed.
+
+Lemma complete_epoch : forall s k rl r bk v, st_epoch (complete order s k rl r bk v) = st_epoch s.
+Proof. reflexivity. Qed.
+
+Lemma complete_flagged : forall s k rl r bk v x,
+  flagged (complete order s k rl r bk v) x = flagged s x && negb (N.eqb x k).
+Proof. intros. exact (flagged_unflag (emit s (EComplete k v)) k x). Qed.
+
+Lemma complete_db_other : forall s k rl r bk v x, x <> k ->
+  get (st_db (complete order s k rl r bk v)) x = get (st_db s) x.
+Proof. intros. unfold complete. cbn [set_db set_mem st_db unflag emit]. now apply get_update_other. Qed.
+
+Lemma run_frame : forall k stack r s, ~ done s k -> ~ In k stack ->
+  frame stack s k (run rules env F order ens k stack r s).
+Proof.
+  intros k stack r s Hnd Hns.
+  destruct (run_cases rules env F order ens k stack r s _ eq_refl)
+    as [(s4 & slots1 & slots3 & GA & GB) | (Hno & ks & GA)];
+    set (o := run rules env F order ens k stack r s) in *; clearbody o.
+  2:{ (* stopped before the task completed *)
+    split; [|intros s' ->; exfalso; now apply (Hno s')].
+    destruct (seg_frame _ _ _ _ GA) as [A _].
+    destruct o as [s'|s' p|]; [exfalso; now apply (Hno s') | | exact I].
+    cbn [frame_o] in *. set (lA := new_log (run_pre rules k r s) s') in *. clearbody lA.
+    eapply frame_new_log with (l := lA ++ run_pre_log rules k r).
+    destruct A. constructor.
+    - rewrite fr_log0, run_pre_log_eq. now rewrite app_assoc.
+    - now rewrite fr_epoch0, run_pre_epoch.
+    - now rewrite fr_dbepoch0, run_pre_dbepoch.
+    - intros x Hx. rewrite fr_frozen0; [now rewrite run_pre_mem|]. unfold done. now rewrite run_pre_mem, run_pre_epoch.
+    - intros x Hx. rewrite fr_stack0; [now rewrite run_pre_mem | now right].
+    - intros x Hx. apply fr_flag0 in Hx. unfold flagged in *. now rewrite run_pre_flag in Hx.
+    - intros x Hx. rewrite creates_app, in_app_iff in Hx. rewrite fr_flag_keep0 by tauto. unfold flagged. now rewrite run_pre_flag.
+    - intros x Hx. rewrite creates_app, in_app_iff in Hx. rewrite fr_db_keep0 by tauto. now rewrite run_pre_db.
+    - rewrite creates_app, run_pre_creates. apply NoDup_app_intro; [exact fr_nodup0 | repeat constructor; intros [] |].
+      intros x Hx [E|[]]. subst x. destruct (fr_fresh0 k Hx) as [_ Q]. apply Q. now left.
+    - intros x Hx. rewrite creates_app, run_pre_creates, in_app_iff in Hx. destruct Hx as [Hx|[<-|[]]]; [|tauto].
+      destruct (fr_fresh0 x Hx) as [P Q]. split.
+      + intros C. apply P. unfold done. now rewrite run_pre_mem, run_pre_epoch.
+      + intros C. apply Q. now right.
+    - intros; discriminate.
+    - intros; discriminate. }
+  (* the task completed; discovered dependencies follow *)
+  destruct (seg_frame _ _ _ _ GA) as [A _]. destruct (seg_frame _ _ _ _ GB) as [B _].
+  cbn [frame_o] in A.
+  set (s0 := run_pre rules k r s) in *. set (lA := new_log s0 s4) in *. clearbody lA.
+  set (bk := branch_keys (rules k) slots1) in *. set (v := task_value rules env F k (rules k) slots1 slots3) in *.
+  set (s6 := complete order (emit s4 (EAvail k)) k (rules k) r bk v) in *.
+  assert (H0mem : st_mem s0 = st_mem s) by apply run_pre_mem.
+  assert (H0ep : st_epoch s0 = st_epoch s) by apply run_pre_epoch.
+  assert (H6other : forall x, x <> k -> get (st_mem s6) x = get (st_mem s4) x)
+    by (intros x Hx; unfold s6; now rewrite complete_mem_other).
+  assert (H6ep : st_epoch s6 = st_epoch s4) by reflexivity.
+  assert (H6k : done s6 k) by (unfold done, s6; now rewrite complete_mem_same).
+  assert (Hd0 : forall x, done s0 x <-> done s x) by (intros x; unfold done; rewrite H0mem, H0ep; tauto).
+  assert (Hd46 : forall x, x <> k -> (done s6 x <-> done s4 x)) by (intros x Hx; unfold done; rewrite H6other, H6ep by exact Hx; tauto).
+  assert (Hm04 : forall x, done s0 x -> done s4 x) by (intros x; eapply frame_done_mono; exact A).
+  assert (Hflag6 : forall x, flagged s6 x = flagged s4 x && negb (N.eqb x k)).
+  { intros x. unfold s6. now rewrite complete_flagged. }
+  assert (Hdb6 : forall x, x <> k -> get (st_db s6) x = get (st_db s4) x).
+  { intros x Hx. unfold s6. now rewrite complete_db_other. }
+  assert (Hlog6 : st_log s6 = EComplete k v :: EAvail k :: st_log s4) by reflexivity.
+  assert (Hnk : ~ In k (creates lA)) by (intros C; destruct (fr_fresh _ _ _ _ _ A k C) as [_ Q]; apply Q; now left).
+  assert (Main : forall s' ok lB, frame_st (k :: stack) s6 s' ok lB ->
+            frame_st stack s s' ok (lB ++ [EComplete k v; EAvail k] ++ lA ++ run_pre_log rules k r) /\ done s' k).
+  { intros s' ok lB B'.
+    assert (HnkB : ~ In k (creates lB)) by (intros C; destruct (fr_fresh _ _ _ _ _ B' k C) as [_ Q]; apply Q; now left).
+    assert (Hm6 : forall x, done s6 x -> done s' x) by (intros x; eapply frame_done_mono; exact B').
+    split; [|now apply Hm6].
+    assert (Hcr : creates (lB ++ [EComplete k v; EAvail k] ++ lA ++ run_pre_log rules k r) = creates lB ++ creates lA ++ [k]).
+    { rewrite !creates_app, run_pre_creates. reflexivity. }
+    constructor.
+    - rewrite (fr_log _ _ _ _ _ B'), Hlog6, (fr_log _ _ _ _ _ A). unfold s0. rewrite run_pre_log_eq.
+      rewrite <- !app_assoc. reflexivity.
+    - rewrite (fr_epoch _ _ _ _ _ B'), H6ep, (fr_epoch _ _ _ _ _ A). exact H0ep.
+    - rewrite (fr_dbepoch _ _ _ _ _ B'). change (st_db_epoch s6) with (st_db_epoch s4).
+      rewrite (fr_dbepoch _ _ _ _ _ A). apply run_pre_dbepoch.
+    - intros x Hx. assert (x <> k) by (intros ->; tauto).
+      assert (D4 : done s4 x) by (apply Hm04; now apply Hd0).
+      rewrite (fr_frozen _ _ _ _ _ B') by now apply Hd46.
+      rewrite H6other by assumption. rewrite (fr_frozen _ _ _ _ _ A) by now apply Hd0. now rewrite H0mem.
+    - intros x Hx. assert (x <> k) by (intros ->; tauto).
+      rewrite (fr_stack _ _ _ _ _ B') by now right. rewrite H6other by assumption.
+      rewrite (fr_stack _ _ _ _ _ A) by now right. now rewrite H0mem.
+    - intros x Hx. apply (fr_flag _ _ _ _ _ B') in Hx. rewrite Hflag6 in Hx. apply andb_prop in Hx. destruct Hx as [Hx _].
+      apply (fr_flag _ _ _ _ _ A) in Hx. unfold flagged in *. unfold s0 in Hx. now rewrite run_pre_flag in Hx.
+    - intros x Hx. rewrite Hcr, !in_app_iff in Hx. cbn [In] in Hx.
+      assert (Hxk : N.eqb x k = false) by (apply N.eqb_neq; intros ->; tauto).
+      rewrite (fr_flag_keep _ _ _ _ _ B') by tauto. rewrite Hflag6, Hxk, andb_true_r.
+      rewrite (fr_flag_keep _ _ _ _ _ A) by tauto. unfold flagged, s0. now rewrite run_pre_flag.
+    - intros x Hx. rewrite Hcr, !in_app_iff in Hx. cbn [In] in Hx.
+      assert (Hxk : x <> k) by (intros ->; tauto).
+      rewrite (fr_db_keep _ _ _ _ _ B') by tauto. rewrite Hdb6 by exact Hxk.
+      rewrite (fr_db_keep _ _ _ _ _ A) by tauto. unfold s0. now rewrite run_pre_db.
+    - rewrite Hcr. apply NoDup_app_intro; [apply (fr_nodup _ _ _ _ _ B') | |].
+      + apply NoDup_app_intro; [apply (fr_nodup _ _ _ _ _ A) | repeat constructor; intros [] |].
+        intros x Hx [<-|[]]. tauto.
+      + intros x HB HA. rewrite in_app_iff in HA. destruct HA as [HA|[<-|[]]]; [|tauto].
+        assert (x <> k) by (intros ->; tauto).
+        destruct (fr_fresh _ _ _ _ _ B' x HB) as [P _]. apply P. apply Hd46; [assumption|]. apply (fr_done _ _ _ _ _ A eq_refl x HA).
+    - intros x Hx. rewrite Hcr, !in_app_iff in Hx. destruct Hx as [Hx|[Hx|[<-|[]]]]; [| |tauto].
+      + destruct (fr_fresh _ _ _ _ _ B' x Hx) as [P Q]. assert (x <> k) by (intros ->; apply Q; now left).
+        split; [|intros C; apply Q; now right]. intros C. apply P. apply Hd46; [assumption|]. apply Hm04. now apply Hd0.
+      + destruct (fr_fresh _ _ _ _ _ A x Hx) as [P Q]. split; [|intros C; apply Q; now right]. intros C. apply P. now apply Hd0.
+    - intros Hok x Hx. rewrite Hcr, !in_app_iff in Hx. destruct Hx as [Hx|[Hx|[<-|[]]]].
+      + apply (fr_done _ _ _ _ _ B' Hok x Hx).
+      + assert (x <> k) by (intros ->; tauto). apply Hm6. apply Hd46; [assumption|]. apply (fr_done _ _ _ _ _ A eq_refl x Hx).
+      + now apply Hm6.
+    - intros Hok x. destruct (N.eq_dec x k) as [->|Hxk]; [right; split; [exact Hnd | now apply Hm6]|].
+      destruct (fr_touch _ _ _ _ _ A eq_refl x) as [E1|[N1 D1]].
+      + destruct (fr_touch _ _ _ _ _ B' Hok x) as [E2|[N2 D2]].
+        * left. rewrite E2, H6other, E1 by assumption. now rewrite H0mem.
+        * right. split; [|exact D2]. intros C. apply N2. apply Hd46; [assumption|]. apply Hm04. now apply Hd0.
+      + right. split; [intros C; apply N1; now apply Hd0|]. apply Hm6. now apply Hd46. }
+  destruct o as [s'|s' p|]; cbn [frame_o] in B.
+  - destruct (Main _ _ _ B) as [M1 M2]. split; [cbn [frame_o]; eapply frame_new_log; exact M1|].
+    intros s'' E. inversion E. subst s''. exact M2.
+  - destruct (Main _ _ _ B) as [M1 M2]. split; [cbn [frame_o]; eapply frame_new_log; exact M1|]. intros ? ?; discriminate.
+  - split; [exact I | intros ? ?; discriminate].
+Qed.
+
+Lemma scan_frame : forall k stack r ds s, ~ done s k -> ~ In k stack ->
+  frame stack s k (scan rules env F order ens k stack r ds s).
+Proof.
+  intros k stack r ds. induction ds as [|d ds IH]; intros s Hnd Hns; cbn [scan].
+  - set (r' := mkRes (res_value r) (res_sig r) (res_computedAt r) (st_epoch s) (res_deps r)).
+    assert (Hk : done (set_mem s k r') k) by (unfold done; cbn [set_mem st_mem st_epoch]; now rewrite get_update_same).
+    split; [|intros s' E; inversion E; subst s'; exact Hk].
+    cbn [frame_o]. eapply frame_new_log with (l := []).
+    assert (Hget : forall x, x <> k -> get (st_mem (set_mem s k r')) x = get (st_mem s) x)
+      by (intros x Hx; cbn [set_mem st_mem]; now apply get_update_other).
+    constructor; cbn [creates In]; try reflexivity; try tauto; try (now constructor).
+    + intros x Hx. apply Hget. intros ->. tauto.
+    + intros x Hx. apply Hget. intros ->. tauto.
+    + intros _ x. destruct (N.eq_dec x k) as [->|Hx]; [right; now split | left; now apply Hget].
+  - destruct (Hens (k :: stack) s (d_key d)) as [A B].
+    destruct (ens (k :: stack) s (d_key d)) as [s1|s1 p|] eqn:E.
+    + cbn [frame_o] in A.
+      assert (Hnd1 : ~ done s1 k).
+      { unfold done. rewrite (fr_stack _ _ _ _ _ A k) by now left. rewrite (fr_epoch _ _ _ _ _ A). exact Hnd. }
+      apply frame_weaken_stack in A.
+      assert (G : forall o, frame stack s1 k o -> frame stack s k o).
+      { intros o [G1 G2]. split; [|exact G2]. eapply frame_o_trans; [exact A | exact G1]. }
+      destruct (negb (d_order d) && (res_builtAt r <? res_computedAt (get (st_mem s1) (d_key d)))).
+      * apply G. set (s2 := emit s1 (ENeed k InputRebuilt (Some (d_key d)))).
+        assert (R : frame stack s2 k (run rules env F order ens k stack r s2)) by (apply run_frame; assumption).
+        destruct R as [R1 R2]. split; [|exact R2]. eapply frame_o_trans; [|exact R1]. now apply frame_emit.
+      * apply G. now apply IH.
+    + split; [eapply frame_o_weaken_stack; exact A | intros ? ?; discriminate].
+    + split; [exact I | intros ? ?; discriminate].
+Qed.
+
+Lemma ensure_body_frame : forall stack s k, frame stack s k (ensure_body rules env F order ens stack s k).
+Proof.
+  intros stack s k. unfold ensure_body.
+  destruct (existsb (N.eqb k) stack) eqn:Est.
+  { split; [|intros ? ?; discriminate]. cbn [frame_o]. eapply frame_new_log. apply frame_refl. }
+  assert (Hns : ~ In k stack).
+  { intros C. assert (existsb (N.eqb k) stack = true); [|congruence].
+    apply existsb_exists. exists k. split; [exact C | apply N.eqb_refl]. }
+  destruct (N.eqb (res_builtAt (get (st_mem s) k)) (st_epoch s)) eqn:Ed.
+  { apply N.eqb_eq in Ed. split; [|intros s' E; inversion E; subst s'; exact Ed].
+    cbn [frame_o]. eapply frame_new_log. apply frame_refl. }
+  assert (Hnd : ~ done s k) by (now apply N.eqb_neq in Ed).
+  set (r0 := get (st_mem s) k) in *.
+  set (r := mkRes (res_value r0) (res_sig r0) (res_computedAt r0) (res_builtAt r0) (drop_single (res_deps r0))).
+  set (s1 := set_mem s k r).
+  assert (Hnd1 : ~ done s1 k) by (unfold done, s1; cbn [set_mem st_mem st_epoch]; now rewrite get_update_same).
+  assert (G : forall e o, creates [e] = [] -> frame stack (emit s1 e) k o -> frame stack s k o).
+  { intros e o He [G1 G2]. split; [|exact G2].
+    assert (G3 : frame_o stack s1 o) by (eapply frame_o_trans; [apply frame_emit; exact He | exact G1]).
+    destruct o as [s'|s' p|]; cbn [frame_o] in *; [| |exact I]; eapply frame_new_log;
+      eapply frame_set_mem_pre with (k := k) (r := r); try reflexivity; try assumption; try exact G3.
+    - intros _. now apply G2.
+    - intros; discriminate. }
+  cbn [res_builtAt res_sig]. fold r. fold s1.
+  destruct (N.eqb (res_builtAt r0) 0).
+  { eapply G; [reflexivity|]. now apply run_frame. }
+  destruct (flagged s1 k).
+  { eapply G; [reflexivity|]. now apply run_frame. }
+  destruct (negb (N.eqb (r_sig (rules k)) (res_sig r0))).
+  { eapply G; [reflexivity|]. now apply run_frame. }
+  destruct (negb (valid rules env k r)).
+  { eapply G with (e := EValid k false); [reflexivity|].
+    set (s2 := emit s1 (EValid k false)).
+    assert (R : frame stack (emit s2 (ENeed k InvalidValue None)) k
+                  (run rules env F order ens k stack r (emit s2 (ENeed k InvalidValue None)))) by now apply run_frame.
+    destruct R as [R1 R2]. split; [|exact R2]. eapply frame_o_trans; [|exact R1]. now apply frame_emit. }
+  eapply G; [reflexivity|]. now apply scan_frame.
+Qed.
+
+End Frame.
+
+(* ---------- lifted to ensure ---------- *)
+
+Section Lift.
+Variable rules : key -> rule.
+Variable env : key -> N.
+Variable F : key -> N -> list value -> list N -> N -> N.
+Variable order : N -> key -> list dep -> list dep.
+
+Theorem ensure_frame : forall fuel stack s k, frame stack s k (ensure rules env F order fuel stack s k).
+Proof.
+  induction fuel as [|f IH]; intros stack s k; cbn [ensure].
+  - split; [exact I | intros ? ?; discriminate].
+  - apply ensure_body_frame. exact IH.
+Qed.
+
+End Lift.
